@@ -71,27 +71,27 @@ func GetReplayCache(d time.Duration) *Cache {
 
 // AddEntry adds an entry to the Cache.
 func (c *Cache) AddEntry(sname types.PrincipalName, a types.Authenticator) {
+	c.mux.Lock()
+	defer c.mux.Unlock()
+	c.addEntry(sname, a)
+}
+
+// addEntry adds an entry to the Cache. The caller must hold the write lock.
+func (c *Cache) addEntry(sname types.PrincipalName, a types.Authenticator) {
 	ct := a.CTime.Add(time.Duration(a.Cusec) * time.Microsecond)
-	if ce, ok := c.getClientEntries(a.CName); ok {
-		c.mux.Lock()
-		defer c.mux.Unlock()
-		ce.replayMap[ct] = replayCacheEntry{
-			presentedTime: time.Now().UTC(),
-			sName:         sname,
-			cTime:         ct,
-		}
+	e := replayCacheEntry{
+		presentedTime: time.Now().UTC(),
+		sName:         sname,
+		cTime:         ct,
+	}
+	if ce, ok := c.entries[a.CName.PrincipalNameString()]; ok {
+		ce.replayMap[ct] = e
 		ce.seqNumber = a.SeqNumber
 		ce.subKey = a.SubKey
 	} else {
-		c.mux.Lock()
-		defer c.mux.Unlock()
 		c.entries[a.CName.PrincipalNameString()] = clientEntries{
 			replayMap: map[time.Time]replayCacheEntry{
-				ct: {
-					presentedTime: time.Now().UTC(),
-					sName:         sname,
-					cTime:         ct,
-				},
+				ct: e,
 			},
 			seqNumber: a.SeqNumber,
 			subKey:    a.SubKey,
@@ -118,11 +118,17 @@ func (c *Cache) ClearOldEntries(d time.Duration) {
 // IsReplay tests if the Authenticator provided is a replay within the duration defined. If this is not a replay add the entry to the cache for tracking.
 func (c *Cache) IsReplay(sname types.PrincipalName, a types.Authenticator) bool {
 	ct := a.CTime.Add(time.Duration(a.Cusec) * time.Microsecond)
-	if e, ok := c.getClientEntry(a.CName, ct); ok {
-		if e.sName.Equal(sname) {
-			return true
+	// The look-up and the insert must be one atomic step: otherwise concurrent presentations of the same
+	// authenticator can all miss the look-up and all be accepted, and an insert can be lost to a concurrent clean-up.
+	c.mux.Lock()
+	defer c.mux.Unlock()
+	if ce, ok := c.entries[a.CName.PrincipalNameString()]; ok {
+		if e, ok := ce.replayMap[ct]; ok {
+			if e.sName.Equal(sname) {
+				return true
+			}
 		}
 	}
-	c.AddEntry(sname, a)
+	c.addEntry(sname, a)
 	return false
 }
